@@ -43,6 +43,16 @@ def write_then_forget(ctx: Ctx, chk, loss_only: bool = False) -> None:
                 chk.refute(rule, k, f"`{norm(r.ast)[:70]}` clears the buffer wholesale: commands that were not written (failed write, other nodes, concurrent sends) are forgotten", ctx.loc(f, r.ast))
                 continue
             key = keyed[0]
+            if isinstance(key, sb.HelperKey):
+                # the removal happens inside a helper called here: accepted only when the call is dominated by the
+                # successful send and the helper removes exactly the key it is handed (the loop's key)
+                call = next(x for x, kk in sb.removal_sites(ctx, f, "set_messages") if kk is key)
+                why = helper_removal_ok(ctx, f, fl, g, r, call)
+                if why is None:
+                    chk.ok(rule, k, "removal inside a helper that removes exactly the loop's key, called after the normal completion of the send", ctx.loc(f, r.ast))
+                else:
+                    chk.refute(rule, k, f"`{norm(call)[:70]}` removes parked commands {key.id}: {why}", ctx.loc(f, r.ast))
+                continue
             in_loop = sb._inside(fl.loop, r.ast)
             if not in_loop:
                 it_nodes = [x for x in g.nodes if x.kind == "iter" and x.ast is fl.loop]
@@ -78,6 +88,8 @@ def write_then_forget(ctx: Ctx, chk, loss_only: bool = False) -> None:
             chk.ok(rule, k, f"dominated by the normal completion of `{norm(s.ast)[:60]}` of the same iteration", ctx.loc(f, r.ast))
         # every send is followed by a removal on the normal path (otherwise: written again at the next wake)
         for s in ([] if loss_only else fl.sends):
+            if any(g.dominates(r, s) for r in fl.removes):
+                continue  # removed before it is written: reported above as a loss, it cannot also be written twice
             chk.instance(rule)
             k = fkey(f, s.ast) + "::then-remove"
             nxt = [x for x, lab in s.succ if lab != "exc"]
@@ -101,13 +113,44 @@ def write_then_forget(ctx: Ctx, chk, loss_only: bool = False) -> None:
                     chk.ok(rule, k, "removal skipped only when the entry is no longer the one that was written (gone or replaced)", ctx.loc(f, s.ast))
                 else:
                     chk.refute(rule, k, f"a normal path from the send reaches the next iteration without removing the entry ({' -> '.join(g.path_text(p)[:4])}): a written command is written again at the next wake", ctx.loc(f, s.ast))
-    # no other function removes from set_messages
+    # no other function removes from set_messages (a helper called only by the flush is judged at its call site above)
+    by_flush = {nm for f in flushes for _c, nm in sb.helper_calls(ctx, f, "removes", "set_messages")}
+    by_other = {nm for f in ctx.prog.all_functions() if f not in flushes for _c, nm in sb.helper_calls(ctx, f, "removes", "set_messages")}
     for f in ctx.prog.all_functions():
         if f in flushes:
+            continue
+        if f.fq in by_flush and f.fq not in by_other:
             continue
         for node, key in sb.removal_sites(ctx, f, "set_messages"):
             chk.instance(rule)
             chk.refute(rule, fkey(f, node), f"{f.qualname} removes from set_messages outside the flush: parked commands can vanish without being written", ctx.loc(f, node))
+
+
+def helper_removal_ok(ctx: Ctx, f, fl, g, r, call: ast.Call) -> str | None:
+    """None when the helper call at CFG node r is a sound per-entry removal; else the reason it is not."""
+    from .common import callee_names
+
+    doms = [s for s in fl.sends if g.dominates(s, r)]
+    if not doms:
+        return "the call is not dominated by the send of the entry (removed before it is written: a failed write loses the command)"
+    s = doms[-1]
+    exc_starts = [x for x, lab in s.succ if lab == "exc"]
+    if g.reach_avoiding(exc_starts, lambda x: x is r, lambda x: x is s, from_succ=False) is not None:
+        return "the call is reachable after a failed send"
+    for nm in sorted(callee_names(ctx, f, call)):
+        try:
+            h = ctx.func(nm)
+        except (AnalysisError, KeyError):
+            continue
+        params = [a.arg for a in h.node.args.posonlyargs + h.node.args.args]
+        if params and params[0] in ("self", "cls"):
+            params = params[1:]
+        amap = dict(zip(params, call.args))
+        amap.update({kw.arg: kw.value for kw in call.keywords if kw.arg})
+        for _n, key in sb.removal_sites(ctx, h, "set_messages"):
+            if not (isinstance(key, ast.Name) and not isinstance(key, sb.HelperKey) and key.id in amap and norm(amap[key.id]) == (fl.key_name or "")):
+                return f"{h.qualname} does not remove exactly the key of the entry that was just written"
+    return None
 
 
 def error_propagates(ctx: Ctx, chk) -> None:
